@@ -138,6 +138,43 @@ func init() {
 			}(p)
 		}
 		wg.Wait()
-		fmt.Printf("SHAPECHECK: %d shapes, %d broken\n", len(progs), bad)
+		// the tables (abstract programs): batches of 150, a failing batch is reported with the first diagnostic lines
+		var tables []*Program
+		tables = append(tables, blockEndTable()...)
+		tables = append(tables, loopFormTable()...)
+		tables = append(tables, loopRerunTable()...)
+		tables = append(tables, rangeTable()...)
+		tables = append(tables, scopingTable()...)
+		tables = append(tables, yieldOperandTable()...)
+		for i := 0; i < len(tables); i += 150 {
+			j := i + 150
+			if j > len(tables) {
+				j = len(tables)
+			}
+			wg.Add(1)
+			go func(part []*Program) {
+				defer wg.Done()
+				sem <- struct{}{}
+				defer func() { <-sem }()
+				b, err := rs.tools.newBatch(part, batchOpts{style: importStyles[0]})
+				if err != nil {
+					rs.infraProblem(err.Error())
+					return
+				}
+				defer b.cleanup()
+				f := b.render()
+				if f == nil {
+					f = rs.tools.validate(b)
+				}
+				if f != nil {
+					mu.Lock()
+					bad++
+					fmt.Printf("TABLE BUG in batch starting at %s: %s\n", part[0].Name, lastLines(f.Diag, 8))
+					mu.Unlock()
+				}
+			}(tables[i:j])
+		}
+		wg.Wait()
+		fmt.Printf("SHAPECHECK: %d shapes + %d table programs, %d broken\n", len(progs), len(tables), bad)
 	}}
 }
